@@ -326,6 +326,27 @@ Definition connect (guard fx : bool) (now : Z) (s : store) (u : uid) : outcome c
         Ok (match e with Some e => CnSessErr e | None => CnOk up down end)
   end.
 
+(* The whole life of one connection as the server harness drives it (dispatcher order):
+   GetUser, GetSession(id, ..) with no session yet; on a session error the dispatcher calls
+   CloseSession, which terminates the now session-less user and queues a zero usage; on
+   success the harness adds [rx]/[tx] to the valve counters, runs updateUsageQueue +
+   commitUpdate (UploadStatus of that usage; any response terminates the user, which again
+   queues a zero usage), closes the session if the user is still there, and flushes the
+   queue with a second commitUpdate (UploadStatus of a zero usage). *)
+Inductive conn_obs := CoAuthErr (e : err) | CoSessErr (e : err) | CoOk (active : bool).
+Definition connect_use (guard fx : bool) (now : Z) (s : store) (u : uid) (rx tx : Z)
+  : outcome (store * conn_obs) :=
+  c <- connect guard fx now s u ;;
+  match c with
+  | CnAuthErr e => Ok (s, CoAuthErr e)
+  | CnSessErr e =>
+      q <- upload fx now s [mkUpd (pad16 u) 0 0] ;; Ok (fst q, CoSessErr e)
+  | CnOk _ _ =>
+      q1 <- upload fx now s [mkUpd (pad16 u) rx tx] ;;
+      q2 <- upload fx now (fst q1) [mkUpd (pad16 u) 0 0] ;;
+      Ok (fst q2, CoOk (is_nil (snd q1)))
+  end.
+
 (* ---- the abstract specification: a finite map UID -> six integers ------------------------- *)
 Definition astore := list (uid * vals).
 Definition vals_zero : vals := mkV 0 0 0 0 0 0.
